@@ -18,9 +18,10 @@
   range node itself.
 
   Where the model follows the PROPERTY (C05) and not the pinned code:
-    * `clip` is "the cells of those columns/rows inside the used area"; the code computes `addr & used` with the
-      unbounded corner 0, which drops the last column/row when the used area reaches MAX_COL/MAX_ROW
-      (Props/C05: `C05_clip_is_inter_*_partial`, `C05_clip_inter_counterexample`; known finding unbounded.maxedge);
+    * `clip` is "the cells of those columns/rows inside the used area"; the pinned code computed `addr & used` with the
+      unbounded corner 0, which dropped the last column/row when the used area reached MAX_COL/MAX_ROW (repaired in
+      /repo by the C11 engineer: 0c6b643, eb7029e, 3fcedea; Props/C05 `C05_clip_is_inter_cols/_rows` now hold for
+      every used area);
     * the used area is a fixed attribute of the sheet (`Layout.used`), the alias cell of an unbounded address shares the
       cache of the bounded range node, an unbounded address whose clip is a single cell evaluates to that cell, and a
       sheet-less unbounded address gets the active sheet like any other — each was a defect of the pinned code found
